@@ -9,6 +9,9 @@ from .state import State, Path, Event, Fork, PathLimit, fresh_id
 from .expr import ExprMixin, truth
 
 
+STATS = {'functions': set(), 'runs': 0, 'paths': 0, 'calls_internal': 0, 'calls_external': 0, 'calls_unresolved': 0}
+
+
 class BindError(Exception):
     pass
 
@@ -117,6 +120,9 @@ class Interp(ExprMixin):
             cont, done = self.exec_block(func.node.body, [st])
             for s in cont:
                 done.append(Path('fall', NONE, s))
+            STATS['functions'].add(func.key)
+            STATS['runs'] += 1
+            STATS['paths'] += len(done)
             return done
         finally:
             self.stack.pop()
@@ -132,6 +138,7 @@ class Interp(ExprMixin):
         return self.log(st, 'write', node, how=how, target=target, **data)
 
     def log_call(self, st, callee, bound, node, **data):
+        STATS['calls_internal'] += 1
         key = callee.key if isinstance(callee, FuncInfo) else callee
         return self.log(st, 'call', node, callee=key, bound=bound, **data)
 
@@ -283,6 +290,7 @@ class Interp(ExprMixin):
                     return self.call_internal(v[1], args, kwargs, st, node, self_val=v[2])
                 if v[0] == 'unbound':
                     return self.call_internal(v[1], args, kwargs, st, node)
+        STATS['calls_unresolved'] += 1
         self.log(st, 'call', node, callee='?', bound={}, fn=callee, args=args, kwargs=kwargs)
         return app('callv', P(callee), *[a if isinstance(a, (Poly, Tup)) else P(a) for a in args], **kwargs)
 
@@ -300,6 +308,7 @@ class Interp(ExprMixin):
         return self.call_value(self.target_value(tgt, name), args, kwargs, st, node)
 
     def call_ext(self, name, args, kwargs, st, node):
+        STATS['calls_external'] += 1
         self.log(st, 'call', node, callee='ext:' + name, bound={}, args=args, kwargs=kwargs)
         h = HANDLERS.get(name)
         if h is None and name.startswith('scipy.'):
